@@ -366,11 +366,12 @@ impl<'a, R: Clone> AsyncGlobalCache<'a, R> {
                 #[cfg(feature = "stats")]
                 self.stats.record_hit();
 
-                // Update LRU order on cache hit (after releasing DashMap lock)
-                if self.limit.is_some()
-                    && (self.policy == EvictionPolicy::LRU
-                        || self.policy == EvictionPolicy::ARC
-                        || self.policy == EvictionPolicy::TLRU)
+                // Update LRU order on cache hit (after releasing DashMap lock).
+                // The order also drives eviction under `max_memory`, so it is kept
+                // up to date whether or not an entry limit is configured.
+                if self.policy == EvictionPolicy::LRU
+                    || self.policy == EvictionPolicy::ARC
+                    || self.policy == EvictionPolicy::TLRU
                 {
                     if self.cache.contains_key(key) {
                         let mut order = self.order.lock();
